@@ -259,6 +259,14 @@ func runProperty(eng *Engine, verifDir, prop, tier string, updateLedger, verbose
 			undecided = append(undecided, fmt.Sprintf("%s (function outside verifier subset: %s)", n, outsideFuncs[g.FV.short][0]))
 			continue
 		}
+		if st != "unsat" && len(g.FV.uncontracted) > 0 {
+			// the function calls a repository function that has no contract and cannot be inlined (new
+			// helper with a loop): its body was not followed, the obligations after the call were checked
+			// against an arbitrary heap. A failure here says "needs a contract", not "is wrong": undecided,
+			// handed to the replay corpus below.
+			undecided = append(undecided, fmt.Sprintf("%s (%s calls %s, a repository function without contract that cannot be inlined)", n, g.FV.short, sortedKeys(g.FV.uncontracted)[0]))
+			continue
+		}
 		if st == "unsat" {
 			discharged++
 			if len(samples) < 6 {
